@@ -1,11 +1,21 @@
 /* C17 tie: the real library under ThreadSanitizer.
 
-   c17_threads run    <ops> <seed>    every thread executes its script concurrently (all start at a barrier; a
+   c17_threads run    <ops> <seed> [<crystal file>]
+                                      every thread executes its script concurrently (all start at a barrier; a
                                       seeded per-thread PRNG inserts sched_yield()/short spins between calls)
-   c17_threads serial <ops> <seed>    the same scripts executed one thread after the other on the main thread
+   c17_threads serial <ops> <seed> [<crystal file>]
+                                      the same scripts executed one thread after the other on the main thread
+                                      Before any thread starts the main thread builds ONE user crystal array (eight built-in crystals added
+                                      one by one + the crystals of <crystal file> through Crystal_ReadFile): `xrl_shared` of xrl_ops.h.  The
+                                      threads only READ it (ops SharedGet / SharedList, crystal tokens `$name` = the entry itself, uncopied):
+                                      reading a shared collection is promised safe; only its modification needs locking.
    c17_threads locale <nthreads> <iters> <formula>
                                       DESIGN §3 C17 search: <nthreads> threads call CS_Total_CP(<formula>) while one
                                       application thread holds LC_NUMERIC=C.utf8 and keeps asking for it
+
+   c17_threads selfrace               two threads increment one plain int of the HARNESS without synchronisation: tells "ThreadSanitizer is not
+                                      live at all" from "the library's objects are not instrumented / the library synchronises now" when the
+                                      canary round of the check (two threads inserting into the built-in crystal array) stays silent
 
    <ops>: lines `<thread id> <op …>` (ops as in xrl_ops.h; each thread has its own error slots and objects).
    Output: `T <thread> <k> <complete outcome of the k-th op of that thread>`; a ThreadSanitizer report goes to
@@ -70,7 +80,14 @@ static void *holder_thread(void *a) {
   return NULL;
 }
 
+static int selfrace_counter;
+static void *selfrace_thread(void *a) { (void)a; for (int i = 0; i < 20000; i++) selfrace_counter++; return NULL; }
+
 int main(int argc, char **argv) {
+  if (argc >= 2 && !strcmp(argv[1], "selfrace")) {
+    pthread_t a, b; pthread_create(&a, NULL, selfrace_thread, NULL); pthread_create(&b, NULL, selfrace_thread, NULL);
+    pthread_join(a, NULL); pthread_join(b, NULL); printf("selfrace %d\n", selfrace_counter); return 0;
+  }
   if (argc < 4) { fprintf(stderr, "usage\n"); return 2; }
   setlocale(LC_ALL, "");
   if (!strcmp(argv[1], "locale")) {
@@ -90,6 +107,8 @@ int main(int argc, char **argv) {
     return 0;
   }
   concurrent = !strcmp(argv[1], "run");
+  xrl_shared_build(argc > 4 ? argv[4] : NULL);
+  printf("A shared-array %d %016llx\n", xrl_shared ? xrl_shared->n_crystal : -1, (unsigned long long)(xrl_shared ? xrl_array_hash(xrl_shared) : 0));
   unsigned long long seed = strtoull(argv[3], NULL, 10) * 2654435761ULL + 88172645463325252ULL;
   FILE *f = fopen(argv[2], "r"); if (!f) { perror(argv[2]); return 2; }
   static char line[1 << 16];
@@ -114,5 +133,7 @@ int main(int argc, char **argv) {
     for (int t = 0; t < nthreads; t++) worker(&S[t]);
   }
   for (int t = 0; t < nthreads; t++) for (int k = 0; k < S[t].n; k++) printf("T %d %d %s\n", t, k, S[t].res[k]);
+  /* the shared array after all threads are done: nobody may have modified it */
+  printf("A shared-array %d %016llx\n", xrl_shared ? xrl_shared->n_crystal : -1, (unsigned long long)(xrl_shared ? xrl_array_hash(xrl_shared) : 0));
   return 0;
 }
